@@ -214,7 +214,9 @@ func VH23b_listener() {
 		verif.Assert(gv == interface{}(checks), "C19/ws-listener/get-check-origin-returns-set-value")
 	}
 	self := sock.Info().SelfName + ".sp.nanomsg.org"
-	offers := [][]string{{self}, {"other.sp.nanomsg.org"}, {}, {"x", self}, {sock.Info().SelfName + ".sp.nanomsg.orgx"}, {"rep.sp.nanomsg.org"}}
+	offers := [][]string{{self}, {"other.sp.nanomsg.org"}, {}, {"x", self}, {sock.Info().SelfName + ".sp.nanomsg.orgx"}, {"rep.sp.nanomsg.org"},
+		// names that only share a prefix / suffix with the listener's own (pair vs pair1): not a match
+		{sock.Info().SelfName + "1.sp.nanomsg.org"}, {"x" + self}}
 	oi := verif.Choice("offer", len(offers))
 	offer := offers[oi]
 	hdr := http.Header{}
